@@ -109,6 +109,9 @@ func (r *fileRenderer) fieldLineX(d int, ind string) {
 		if !dl.Type.IsRef() && (dl.ScalarOf() == "string" || dl.ScalarOf() == "bytes") && v == "hi" {
 			v = "\"hi\""
 		}
+		if !dl.Type.IsRef() && dl.ScalarOf() == "bytes" && v == "del" {
+			v = `"a\x7f\001"`
+		}
 		pre = append(pre, "default = "+v)
 	}
 	if dl.Json != "" {
